@@ -28,9 +28,23 @@ pub fn dump_crate<'tcx>(tcx: TyCtxt<'tcx>, out_dir: &str, crate_name: &str) {
                 DefKind::Fn | DefKind::AssocFn | DefKind::Closure => {}
                 _ => continue, // consts/statics/anon consts: not needed as bodies
             }
+            // Building the MIR of one function can force borrowck of *another* one (auto-trait leakage of an `async fn`'s
+            // opaque future, e.g. `Box::pin(Self::helper(..))` coerced to a `Send` boxed future), which steals that function's
+            // `mir_built` before this loop reaches it. Fall back to `mir_promoted` (same CFG after promotion of constants).
             let steal = tcx.mir_built(def);
-            let body = steal.borrow().clone();
-            bodies.push((def, body));
+            if !steal.is_stolen() {
+                let body = steal.borrow().clone();
+                bodies.push((def, body));
+                continue;
+            }
+            let (promoted, _) = tcx.mir_promoted(def);
+            if !promoted.is_stolen() {
+                let body = promoted.borrow().clone();
+                eprintln!("litep2p-verif-driver: mir_built of {:?} was stolen, using mir_promoted", def);
+                bodies.push((def, body));
+            } else {
+                eprintln!("litep2p-verif-driver: no MIR available for {:?} (mir_built and mir_promoted stolen)", def);
+            }
         }
         for (def, body) in bodies.iter() {
             let def = *def;
@@ -88,8 +102,59 @@ pub fn dump_crate<'tcx>(tcx: TyCtxt<'tcx>, out_dir: &str, crate_name: &str) {
     std::fs::rename(&tmp, &path).expect("rename facts");
 }
 
+// Rename canonicalisation (DESIGN.md section 8.2): the analysis compares the tree with a committed baseline of names; when a private field or
+// a function was merely renamed, the facts are written under the baseline names so that the rules (which name fields and functions) see
+// the same program. LPV_ALIASES names a file with lines `F\t<adt path>\t<variant>\t<current field>\t<baseline field>` and
+// `N\t<current def path>\t<baseline def path>`.
+struct Aliases {
+    fields: std::collections::HashMap<(String, String, String), String>,
+    fns: Vec<(String, String)>,
+}
+
+static ALIASES: std::sync::OnceLock<Aliases> = std::sync::OnceLock::new();
+
+fn aliases() -> &'static Aliases {
+    ALIASES.get_or_init(|| {
+        let mut a = Aliases { fields: std::collections::HashMap::new(), fns: Vec::new() };
+        if let Ok(path) = std::env::var("LPV_ALIASES") {
+            if let Ok(text) = std::fs::read_to_string(&path) {
+                for line in text.lines() {
+                    let f: Vec<&str> = line.split('\t').collect();
+                    if f.len() == 5 && f[0] == "F" {
+                        a.fields.insert((f[1].to_string(), f[2].to_string(), f[3].to_string()), f[4].to_string());
+                    } else if f.len() == 3 && f[0] == "N" {
+                        a.fns.push((f[1].to_string(), f[2].to_string()));
+                    }
+                }
+            }
+        }
+        a
+    })
+}
+
+fn alias_field(adt: &str, variant: &str, name: String) -> String {
+    let a = aliases();
+    if a.fields.is_empty() {
+        return name;
+    }
+    match a.fields.get(&(adt.to_string(), variant.to_string(), name.clone())) {
+        Some(b) => b.clone(),
+        None => name,
+    }
+}
+
 fn dps<'tcx>(tcx: TyCtxt<'tcx>, d: DefId) -> String {
-    tcx.def_path_str(d)
+    let s = tcx.def_path_str(d);
+    let a = aliases();
+    for (cur, base) in a.fns.iter() {
+        if s == *cur {
+            return base.clone();
+        }
+        if s.len() > cur.len() && s.starts_with(cur.as_str()) && s[cur.len()..].starts_with("::{") {
+            return format!("{}{}", base, &s[cur.len()..]);
+        }
+    }
+    s
 }
 
 fn span_info<'tcx>(tcx: TyCtxt<'tcx>, span: Span) -> (i128, J) {
@@ -156,7 +221,7 @@ fn field_name<'tcx>(tcx: TyCtxt<'tcx>, pty: mir::PlaceTy<'tcx>, f: FieldIdx) -> 
             if adt.is_enum() || adt.is_struct() || adt.is_union() {
                 if let Some(var) = adt.variants().get(v) {
                     if let Some(fd) = var.fields.get(f) {
-                        return fd.name.to_string();
+                        return alias_field(&tcx.def_path_str(adt.did()), &var.name.to_string(), fd.name.to_string());
                     }
                 }
             }
@@ -251,7 +316,10 @@ impl<'a, 'tcx> Cx<'a, 'tcx> {
         (
             dps(self.tcx, did),
             var.name.to_string(),
-            var.fields.iter().map(|f| J::s(f.name.to_string())).collect(),
+            var.fields
+                .iter()
+                .map(|f| J::s(alias_field(&self.tcx.def_path_str(did), &var.name.to_string(), f.name.to_string())))
+                .collect(),
         )
     }
 
@@ -596,7 +664,7 @@ fn adt_record<'tcx>(tcx: TyCtxt<'tcx>, did: DefId) -> J {
         let mut fields = Vec::new();
         for f in v.fields.iter() {
             fields.push(J::Obj(vec![
-                ("name", J::s(f.name.to_string())),
+                ("name", J::s(alias_field(&tcx.def_path_str(did), &v.name.to_string(), f.name.to_string()))),
                 ("ty", J::s(ty_s(tcx.type_of(f.did).instantiate_identity().skip_norm_wip()))),
                 ("vis", J::s(format!("{:?}", f.vis))),
             ]));
